@@ -2,6 +2,7 @@ package sim
 
 import (
 	"runtime"
+	"sync/atomic"
 	"time"
 
 	"github.com/yaricom/goNEAT/v4/neat/genetics"
@@ -41,6 +42,11 @@ type Sched struct {
 	OnCancel  func()
 	offspring int
 	Cancelled bool
+	// IdentityMismatch counts goroutines that announced themselves (begin hook) under the id of a species other than
+	// the one the parent spawned them for (e.g. a closure that reads the spawning loop's variable). They are adopted
+	// under a free task slot so that the run goes on; the C16 scenario reports them.
+	IdentityMismatch int
+	MismatchIds      [2]int
 }
 
 // Instrumented tells whether this worker was built against the instrumented copy of the tree (set from the
@@ -48,8 +54,12 @@ type Sched struct {
 var Instrumented = false
 
 type schedTask struct {
-	id      int
-	idx     int
+	id  int
+	idx int
+	// claimed is the one scheduler field touched with sync/atomic: a goroutine takes a task slot by CAS. When every
+	// goroutine announces its own id (the only case on a correct tree) each slot's flag is touched by one goroutine only,
+	// so no happens-before edge between goroutines arises from it.
+	claimed int32
 	state   int // 0 spawned, 1 parked, 2 running, 3 done
 	release int
 	tag     string
@@ -114,9 +124,30 @@ func (s *Sched) find(id int) *schedTask {
 
 //go:norace
 func (s *Sched) begin(id int) {
-	t := s.find(id)
-	if t == nil {
+	if !s.active {
 		return
+	}
+	t := s.find(id)
+	if t == nil || !atomic.CompareAndSwapInt32(&t.claimed, 0, 1) {
+		// no free slot under this id: the goroutine is not working on the species it was spawned for
+		s.IdentityMismatch++
+		s.MismatchIds = [2]int{id, -1}
+		t = nil
+		for i := 0; t == nil && i < 200000; i++ {
+			for _, c := range s.tasks {
+				if c != nil && atomic.CompareAndSwapInt32(&c.claimed, 0, 1) {
+					t = c
+					s.MismatchIds[1] = c.id
+					break
+				}
+			}
+			if t == nil {
+				idle(i)
+			}
+		}
+		if t == nil {
+			return
+		}
 	}
 	t.tag = "begin"
 	t.state = 1
@@ -161,7 +192,11 @@ func (s *Sched) yield(tag string) {
 
 //go:norace
 func (s *Sched) end(id int) {
-	t := s.find(id)
+	// exactly one task runs at a time: the goroutine that ends is the current one, whatever id it announces
+	t := s.current
+	if t == nil || t.state != 2 {
+		t = s.find(id)
+	}
 	if t == nil {
 		return
 	}
